@@ -2,6 +2,7 @@ package rules
 
 import (
 	"fmt"
+	"os"
 	"regexp"
 	"sort"
 	"strconv"
@@ -15,9 +16,12 @@ import (
 func init() { Registry["C12"] = checkC12 }
 
 var (
-	reFirstRead = regexp.MustCompile(`\(io\.Reader(At)?\)\.Read(At)?\(alloc:buf\[c:0:c:2\](,c:0)?\)#0`)
-	reFullRead  = regexp.MustCompile(`io\.(ReadFull\(\$3,alloc:buf\[c:0:c:2\]\)|ReadAtLeast\(\$3,alloc:buf\[c:0:c:2\],c:2\))#0`)
-	reEnvExpr   = regexp.MustCompile(`(\(\*Protocol\)\.DecodeEnveloped(@\d+)?\(\$0,\$2\)|\(protocol/stream\.Reader\)\.ReadEnvelopeBegin(@\d+)?\(\))#0\.`)
+	reFirstRead = regexp.MustCompile(`\(io\.Reader(At)?\)\.Read(At)?\(alloc:\w+\[c:0:c:2\](,c:0)?\)#0`)
+	reFullRead  = regexp.MustCompile(`io\.(ReadFull\(\$3,alloc:\w+\[c:0:c:2\]\)|ReadAtLeast\(\$3,alloc:\w+\[c:0:c:2\],c:2\))#0`)
+	// the peek buffer's first byte, whatever the local is called
+	rePeekByte = regexp.MustCompile(`alloc:\w+\[c:0\]`)
+	reValLocal = regexp.MustCompile(`v\.GetI32\(alloc:\w+\)`)
+	reEnvExpr  = regexp.MustCompile(`(\(\*Protocol\)\.DecodeEnveloped(@\d+)?\(\$0,\$2\)|\(protocol/stream\.Reader\)\.ReadEnvelopeBegin(@\d+)?\(\))#0\.`)
 )
 
 // c12Inline: helpers named by the frozen expectations stay calls; any other
@@ -41,6 +45,7 @@ func classifyArms(f *ssa.Function, respIdx int) ([]string, []string) {
 			e = core.ResolveLit(normRepl.Replace(e))
 			e = reFirstRead.ReplaceAllString(e, "N")
 			e = reFullRead.ReplaceAllString(e, "N")
+			e = rePeekByte.ReplaceAllString(e, "alloc:buf[c:0]")
 			switch {
 			case strings.HasPrefix(e, "ret("):
 				parts := splitTop(e[4:len(e)-1], ',')
@@ -175,12 +180,17 @@ func checkC12(c *core.Ctx, l *core.Ledger) {
 	}
 	// random-access reader
 	if f := fn("Reader.ReadEnveloped"); f != nil {
+		if os.Getenv("VDEBUG") != "" {
+			tr, _ := core.TraceSeqsInline(f, func(call ssa.CallInstruction) bool { return true }, inlineHelpers())
+			fmt.Fprintln(os.Stderr, "RENV", core.ResolveLit(normRepl.Replace(core.SeqString(tr))))
+		}
 		got := stripCallArgs(normSeqs(m.RSeqs(f)))
 		want := "[call:ReadValue call:readNonStrictNameType call:ReadValue call:ReadValue] | [call:ReadValue call:readStrictNameType call:ReadValue call:ReadValue]"
 		full := normSeqs(m.RSeqs(f))
 		ok := got == want && strings.HasPrefix(full, "[call:ReadValue(c:8,c:0) ") && strings.Contains(full, "call:ReadValue(c:12,")
 		tr, _ := core.TraceSeqsInline(f, func(call ssa.CallInstruction) bool { return true }, c12Inline)
 		trs := normRepl.Replace(core.SeqString(tr))
+		trs = reValLocal.ReplaceAllString(trs, "v.GetI32(alloc:val)")
 		ok = ok && strings.Contains(trs, "(v.GetI32(alloc:val)>c:0) call:Reader.readNonStrictNameType") && strings.Contains(trs, "!(v.GetI32(alloc:val)>c:0) call:Reader.readStrictNameType")
 		l.Add(core.Obligation{Rule: "ENV-SEQ", Key: "Reader.ReadEnveloped", Pos: c.Rel(f.Pos()), Status: st(ok), Detail: "i32 word at offset 0; >0 => legacy name/type, else strict; then i32 seqid and the struct body, offsets threaded; " + got})
 		l.Check(offsetsThreaded(f), "ENV-SEQ", "Reader.ReadEnveloped.offsets", c.Rel(f.Pos()), "each ReadValue starts at the offset returned by the previous step", "ReadEnveloped does not thread the offset returned by one read into the next")
@@ -188,7 +198,10 @@ func checkC12(c *core.Ctx, l *core.Ledger) {
 	if f := fn("Reader.readStrictNameType"); f != nil {
 		tr, _ := core.TraceSeqsInline(f, func(call ssa.CallInstruction) bool { return true }, c12Inline)
 		got := normRepl.Replace(core.SeqString(tr))
-		ok := strings.Contains(got, "!(($1&c:4294901760)!=c:2147549184)") && strings.Contains(got, "call:Reader.ReadValue($0,c:11,$2)") && strings.Contains(got, "Name=v.GetString(Reader.ReadValue($0,c:11,$2)#0);Type=$1")
+		// the name and the type leave the helper either inside an Envelope literal or as separate results
+		prov := strings.Contains(got, "Name=v.GetString(Reader.ReadValue($0,c:11,$2)#0);Type=$1") ||
+			strings.Contains(got, "ret(v.GetString(Reader.ReadValue($0,c:11,$2)#0),$1,")
+		ok := strings.Contains(got, "!(($1&c:4294901760)!=c:2147549184)") && strings.Contains(got, "call:Reader.ReadValue($0,c:11,$2)") && prov
 		l.Add(core.Obligation{Rule: "ENV-SEQ", Key: "Reader.readStrictNameType", Pos: c.Rel(f.Pos()), Status: st(ok), Detail: "same version mask/constant as the stream reader; binary name at the given offset; type from the word: " + got})
 	}
 	if f := fn("Reader.readNonStrictNameType"); f != nil {
@@ -310,7 +323,7 @@ func sortEvents(s string) string {
 func envelopeBeginOrder(f *ssa.Function) bool {
 	seqs, ok := core.SuccessSeqs(f, core.SeqOpts{Classify: func(in ssa.Instruction, inLoop bool) []string {
 		if call, ok := in.(*ssa.Call); ok && call.Call.StaticCallee() != nil {
-			return []string{call.Call.StaticCallee().Name()}
+			return []string{core.CanonName(call.Call.StaticCallee())}
 		}
 		return nil
 	}})
@@ -326,7 +339,7 @@ func envelopeBeginOrder(f *ssa.Function) bool {
 	var first ssa.Value
 	okStore := false
 	core.Instrs(f, func(in ssa.Instruction) {
-		if call, ok := in.(*ssa.Call); ok && call.Call.StaticCallee() != nil && strings.HasSuffix(call.Call.StaticCallee().Name(), "Envelope") && len(call.Call.Args) == 2 {
+		if call, ok := in.(*ssa.Call); ok && call.Call.StaticCallee() != nil && strings.HasSuffix(core.CanonName(call.Call.StaticCallee()), "Envelope") && len(call.Call.Args) == 2 {
 			if ex, ok := core.Unop(call.Call.Args[1]).(*ssa.Extract); ok {
 				first = ex.Tuple
 			}
@@ -351,7 +364,7 @@ func offsetsThreaded(f *ssa.Function) bool {
 	ok := true
 	core.Instrs(f, func(in ssa.Instruction) {
 		call, isCall := in.(*ssa.Call)
-		if !isCall || call.Call.StaticCallee() == nil || call.Call.StaticCallee().Name() != "ReadValue" || len(call.Call.Args) != 3 {
+		if !isCall || call.Call.StaticCallee() == nil || core.CanonName(call.Call.StaticCallee()) != "ReadValue" || len(call.Call.Args) != 3 {
 			return
 		}
 		n++
